@@ -118,7 +118,9 @@ namespace MEDDLY {
             return false;
         }
         inline static bool stopOnEqualArgs() {
-            return true;
+            // x%x is 0 only where x is finite and nonzero; elsewhere we must
+            // reach the terminals and report the error.
+            return false;
         }
         inline static void makeEqualResult(int L, unsigned in,
                 const edge_value &av, const node_handle &a,
@@ -138,11 +140,11 @@ namespace MEDDLY {
                 const forest* f1, edge_value &av, node_handle &an,
                 const forest* f2, const edge_value &bv, node_handle bn)
         {
-            if (OMEGA_NORMAL == an) {
-                if (0 == EDGETYPE(av)) return true;
-            }
+            // 0%b is 0 only where b is nonzero, and a%infinity is a only
+            // where a is finite: neither can short-circuit unless a is a
+            // finite constant and b is the constant infinity.
             if (OMEGA_INFINITY == bn) {
-                return true;
+                return (OMEGA_NORMAL == an);
             }
             return false;
         }
